@@ -1,5 +1,5 @@
 (* C13/Properties.v — the property's clauses as theorems (statements only; proofs are in Proofs*.v). *)
-From Verif Require Import Common.Base C13.Model C13.Spec C13.Proofs1 C13.Proofs2 C13.Proofs3 C13.Proofs4 C13.Proofs5 C13.Proofs6 C13.Proofs7 C13.Proofs8 C13.Proofs9 C13.Proofs10 C13.Instances C13.Translated.
+From Verif Require Import Common.Base C13.Model C13.Spec C13.Proofs1 C13.Proofs2 C13.Proofs3 C13.Proofs4 C13.Proofs5 C13.Proofs6 C13.Proofs7 C13.Proofs8 C13.Proofs9 C13.Proofs10 C13.Proofs11 C13.ProofsC C13.Checkers C13.Instances C13.Translated.
 From Verif Require Import Generated.C13Telemetry Generated.C13Levels.
 From Verif Require Import Generated.C13CfgSchema.
 From Coq Require Import String.
@@ -349,3 +349,93 @@ Print Assumptions tel_labels_distinct.
 Theorem telemetry_levels : lvl_LevelNone = (-1)%Z /\ lvl_LevelBasic = 0%Z /\ lvl_LevelNormal = 1%Z /\ lvl_LevelDetailed = 2%Z.
 Proof. exact levels_l. Qed.
 Print Assumptions telemetry_levels.
+
+(* ---- reloads: the effective configuration is that of the configuration loaded LAST ----------- *)
+
+(* for every history of loads (start-up and any number of reloads): what is handed on after the
+   n-th load is exactly the encoding of the n-th configuration, whatever was loaded before *)
+Theorem reload_effective_is_current : forall before enc after,
+  nth_error (run_loads (before ++ enc :: after)) (List.length before) = Some enc.
+Proof. exact reload_current_l. Qed.
+Print Assumptions reload_effective_is_current.
+
+(* hence a key / entry / component removed from the configuration is gone from the effective
+   configuration after the reload, even though an earlier configuration had it *)
+Theorem reload_removed_key_absent : forall before enc after p,
+  cv_get p (Some enc) = None ->
+  forall eff, nth_error (run_loads (before ++ enc :: after)) (List.length before) = Some eff -> cv_get p (Some eff) = None.
+Proof. exact removed_key_absent_l. Qed.
+Print Assumptions reload_removed_key_absent.
+
+(* this rests on the Conf being fresh: the merge itself keeps the keys of what it merges into *)
+Theorem merge_into_used_conf_keeps_old_keys :
+  exists old new p, cv_get p (Some new) = None /\ cv_get p (Some (cv_merge old new)) <> None.
+Proof. exact merge_keeps_old_keys_l. Qed.
+Print Assumptions merge_into_used_conf_keeps_old_keys.
+
+(* a configuration that does not validate is never made effective — at start-up or on ANY reload,
+   whatever was loaded before; and nothing is loaded after a refused reload *)
+Theorem invalid_configuration_never_effective : forall h e, In e (run_loads_v h) -> In (true, e) h.
+Proof. exact run_loads_v_valid_l. Qed.
+Print Assumptions invalid_configuration_never_effective.
+
+Theorem refused_reload_ends_the_run : forall a x b, run_loads_v (a ++ (false, x) :: b) = run_loads_v a.
+Proof. exact run_loads_v_prefix_l. Qed.
+Print Assumptions refused_reload_ends_the_run.
+
+(* a component whose type has no factory (a misspelt type) is rejected and named; all known => accepted *)
+Theorem unknown_component_type_rejected : forall known ids id,
+  In id ids -> ~ In (type_of_id id) known -> In id (unknown_type_ids known ids).
+Proof. exact unknown_type_named_l. Qed.
+Print Assumptions unknown_component_type_rejected.
+
+Theorem known_component_types_accepted : forall known ids,
+  unknown_type_ids known ids = [] <-> forall id, In id ids -> In (type_of_id id) known.
+Proof. exact known_types_accepted_l. Qed.
+Print Assumptions known_component_types_accepted.
+
+(* ---- the clause checkers used by the failing-input search decide the clauses (ProofsC.v) ------- *)
+Theorem checker_walk_complete : forall t obs,
+  walk_complete_b t obs = true <-> forall p e, reach t p (Some e) -> In (p, e) obs.
+Proof. exact walk_complete_b_iff. Qed.
+Print Assumptions checker_walk_complete.
+
+Theorem checker_walk_sound : forall t obs,
+  walk_sound_b t obs = true <-> forall p e, In (p, e) obs -> reach t p (Some e).
+Proof. exact walk_sound_b_iff. Qed.
+Print Assumptions checker_walk_sound.
+
+Theorem checker_wf : forall g c, wf_b g c = true <-> wf g c.
+Proof. exact wf_b_iff. Qed.
+Print Assumptions checker_wf.
+
+Theorem checker_shape : forall p, shape_ok_b p = true <-> wf_shape p.
+Proof. exact shape_ok_b_iff. Qed.
+Print Assumptions checker_shape.
+
+Theorem checker_unknown_named : forall t v obs,
+  unknown_named_b t v obs = true <-> forall p k, unk t v p k -> In (p, k) obs.
+Proof. exact unknown_named_b_iff. Qed.
+Print Assumptions checker_unknown_named.
+
+Theorem checker_no_secret : forall plains obs,
+  no_secret_b plains obs = true <-> forall s, In s (cv_scalars obs) -> s = redacted \/ In s plains.
+Proof. exact no_secret_b_iff. Qed.
+Print Assumptions checker_no_secret.
+
+Theorem checker_written_reflected_sound : forall d m obs,
+  written_reflected_b d m obs = true ->
+  forall p s0 s, leaf_at d p s0 -> written (Some m) p s -> leaf_at obs p s.
+Proof. exact written_reflected_b_sound. Qed.
+Print Assumptions checker_written_reflected_sound.
+
+Theorem checker_same_value : forall w r, same_value_b w r = true <-> same_value w r.
+Proof. exact same_value_b_iff. Qed.
+Print Assumptions checker_same_value.
+
+(* the unique-keys hypothesis of the exactness theorems holds at a descriptor level whenever the
+   computed obligation schema_squash_disjoint holds for it *)
+Theorem disjoint_level_has_unique_keys : forall rem fs,
+  squash_keys_disjoint (TStruct rem fs) = true -> NoDup (map fst (flat_of (TStruct rem fs))).
+Proof. exact disjoint_level_unique_keys. Qed.
+Print Assumptions disjoint_level_has_unique_keys.
